@@ -271,6 +271,19 @@ def substrings_of(rng, S, cap):
         extra.append(S[0][-1:] + S[1][:1])  # straddles two members in the text
         extra.append(S[0] + S[1])
     extra += [bytes([0x02]), bytes([0xFE, 0xFE]), b"zzzz"]
+    # long twins, queried one after the other: patterns of one length that agree on a long prefix and differ
+    # at the end or only in the middle (an answer must not depend on the previous query)
+    tw = 0
+    for a, b in zip(S, S[1:]):
+        l = 0
+        while l < len(a) and l < len(b) and a[l] == b[l]:
+            l += 1
+        if l >= 33 and tw < 3:
+            extra += [a[:l + 1], b[:l + 1], a[l - 33:l + 1], b[l - 33:l + 1]]
+            m = min(len(a), len(b))
+            if m > l + 1:
+                extra += [a[:m], b[:m]]
+            tw += 1
     out, seen = [], set()
     for x in ss + extra:
         if x not in seen:
